@@ -38,7 +38,12 @@ Lemma comp_decls_no_listreq defs pok c td : In td (comp_decls defs pok c) -> dec
 Proof.
   destruct c as [file m|n vs|file s]; cbn [comp_decls].
   - intros [<-|H]; [cbn; destruct (m_oneof m); reflexivity|].
-    apply in_map_iff in H. destruct H as [x [<- _]]. reflexivity.
+    apply in_app_or in H. destruct H as [H|H].
+    + apply in_map_iff in H. destruct H as [x [<- _]]. reflexivity.
+    + unfold inline_decls in H. apply in_flat_map in H. destruct H as [f [_ H]].
+      destruct (f_inline f) as [il|]; [|contradiction].
+      destruct (N.eqb (il_kind il) 2); [contradiction|]. destruct H as [<-|[]].
+      cbn [snd]. destruct (N.eqb (il_kind il) 1); reflexivity.
   - intros [<-|[]]. reflexivity.
   - destruct (Entity.sv_ann s); intros [<-|[]]; cbn; try reflexivity; apply abs_methods_no_listreq.
 Qed.
@@ -113,7 +118,7 @@ Lemma abs_ty_facts defs f t :
   /\ (match abs_ty defs f t with TKey _ _ k _ => k = KNone | _ => True end)
   /\ (match abs_ty defs f t with TKey (EPrimary true) _ _ _ => f_primary f = true | _ => True end).
 Proof.
-  intros Hr Hm. destruct t as [pt k|p n|p n|p n|tn k|v]; cbn [abs_ty]; try contradiction.
+  intros Hr Hm. destruct t as [pt k|p n|p n|p n|tn k|v|nn nk]; cbn [abs_ty]; try contradiction.
   - destruct (bytes_eqb k (bs "key")).
     + cbn. repeat split; destruct (f_primary f); try reflexivity; destruct (is_some (f_foreign f)); reflexivity.
     + pose proof (scalar_fty_shape pt k (is_some (f_filter f))) as Hs.
@@ -124,6 +129,7 @@ Proof.
   - repeat split. cbn [fty_in_language]. rewrite (ref_of_resolves defs true p n Hr). reflexivity.
   - pose proof (scalar_fty_shape 11 k (is_some (f_filter f))) as Hs.
     split; [apply scalar_fty_in_language|]. destruct (scalar_fty 11 k (is_some (f_filter f))); cbn in Hs; try contradiction; repeat split; assumption.
+  - destruct (N.eqb nk 0); [repeat split|]. destruct (N.eqb nk 1); repeat split.
 Qed.
 
 Definition is_primary_fty (t : fty) : bool := match t with TKey (EPrimary true) _ _ _ => true | _ => false end.
@@ -171,7 +177,7 @@ Proof.
     destruct (f_optional f); [|reflexivity]. cbn [andb] in *.
     destruct (abs_ty defs f t) as [| | | | | | | | |e te kf lr| | | |]; try reflexivity.
     destruct e as [|[|]| |]; try reflexivity. rewrite Hp in Hok. rewrite orb_true_r in Hok. discriminate. }
-  unfold abs_prop. destruct (f_type f) as [pt k|p n|p n|p n|tn k|v] eqn:Et.
+  unfold abs_prop. destruct (f_type f) as [pt k|p n|p n|p n|tn k|v|nn nk] eqn:Et.
   6: { assert (Hv : match v with Entity.TMap _ => False | _ => True end) by (destruct v; try exact I; discriminate).
        cbn [ref_resolves] in Hr. destruct (abs_ty_facts defs f v Hr Hv) as (Hl & Hf & Hk & _).
        apply accepted_map_of_facts; assumption. }
@@ -185,6 +191,8 @@ Proof.
     apply accepted_of_facts; [exact Hl|exact Hf|exact Hk|exact Hro|exact (Hop (Entity.TEnum p n) I Hr)].
   - destruct (abs_ty_facts defs f (Entity.TExt tn k) Hr I) as (Hl & Hf & Hk & _).
     apply accepted_of_facts; [exact Hl|exact Hf|exact Hk|exact Hro|exact (Hop (Entity.TExt tn k) I Hr)].
+  - destruct (abs_ty_facts defs f (Entity.TNested nn nk) Hr I) as (Hl & Hf & Hk & _).
+    apply accepted_of_facts; [exact Hl|exact Hf|exact Hk|exact Hro|exact (Hop (Entity.TNested nn nk) I Hr)].
 Qed.
 
 (* a service component is clean: its path parameters exist and every method has an HTTP verb *)
@@ -224,24 +232,48 @@ Proof.
   destruct (existsb m_request ms); destruct o; rewrite ?nerr_set, ?nerr_ens, ?nerr_set, ?nerr_ens, (methods_nerr ms d0 H); reflexivity.
 Qed.
 
+(* a field and, when its type is defined inline, the fields of that definition are well-formed *)
+Definition ofield_ok_deep (f : ofield) : bool :=
+  ofield_ok f && match f_inline f with
+                 | Some il => forallb (fun sf => ofield_ok (of_sfield sf)) (il_fields il)
+                 | None => true
+                 end.
+
 Lemma comp_decls_nerr defs pok c :
-  forallb (fun f => ref_resolves defs (f_type f)) (Entity.fields_of [c]) = true ->
-  forallb ofield_ok (Entity.fields_of [c]) = true -> comp_clean pok c = true ->
+  forallb (field_resolves defs) (Entity.fields_of [c]) = true ->
+  forallb ofield_ok_deep (Entity.fields_of [c]) = true -> comp_clean pok c = true ->
   forall td, In td (comp_decls defs pok c) -> d_nerr (decl_state (snd td)) = 0.
 Proof.
   intros Hr Hok Hc td Hin.
   assert (Hacc : forall f, In f (Entity.fields_of [c]) -> prop_accepted (abs_prop defs f) = true).
-  { intros f Hf. rewrite forallb_forall in Hr, Hok. apply abs_prop_accepted; [apply Hr|apply Hok]; exact Hf. }
+  { intros f Hf. rewrite forallb_forall in Hr, Hok. specialize (Hr f Hf). specialize (Hok f Hf).
+    unfold field_resolves in Hr. apply andb_prop in Hr. unfold ofield_ok_deep in Hok. apply andb_prop in Hok.
+    apply abs_prop_accepted; [exact (proj1 Hr)|exact (proj1 Hok)]. }
+  assert (Hinl : forall f il sf, In f (Entity.fields_of [c]) -> f_inline f = Some il -> In sf (il_fields il) ->
+                  prop_accepted (abs_prop defs (of_sfield sf)) = true).
+  { intros f il sf Hf Hil Hsf. rewrite forallb_forall in Hr, Hok. specialize (Hr f Hf). specialize (Hok f Hf).
+    unfold field_resolves in Hr. apply andb_prop in Hr. destruct Hr as [_ Hr]. rewrite Hil in Hr.
+    unfold ofield_ok_deep in Hok. apply andb_prop in Hok. destruct Hok as [_ Hok]. rewrite Hil in Hok.
+    rewrite forallb_forall in Hr, Hok. apply abs_prop_accepted; [exact (Hr sf Hsf)|exact (Hok sf Hsf)]. }
   destruct c as [file m|n vs|file s]; cbn [comp_decls] in Hin.
   - assert (Hfs : forall l, incl l (Entity.fields_of [CMsg file m]) -> forallb prop_accepted (map (abs_prop defs) l) = true).
     { intros l Hl. apply forallb_forall. intros p Hp. apply in_map_iff in Hp. destruct Hp as [f [<- Hf]]. apply Hacc, Hl, Hf. }
-    assert (Hmain : incl (m_fields m) (Entity.fields_of [CMsg file m])).
-    { unfold Entity.fields_of; cbn. rewrite app_nil_r. apply incl_appl, incl_refl. }
+    assert (Hall : Entity.fields_of [CMsg file m] = m_fields m ++ flat_map snd (m_nested m)).
+    { unfold Entity.fields_of; cbn. apply app_nil_r. }
+    assert (Hmain : incl (m_fields m) (Entity.fields_of [CMsg file m])) by (rewrite Hall; apply incl_appl, incl_refl).
     destruct Hin as [<-|Hin].
     + cbn [snd]. destruct (m_oneof m); apply nerr_decl; try reflexivity; cbn [decl_in_language]; apply Hfs, Hmain.
-    + apply in_map_iff in Hin. destruct Hin as [nst [<- Hn]]. cbn [snd]. apply nerr_decl; [|reflexivity].
-      cbn [decl_in_language]. apply Hfs. unfold Entity.fields_of; cbn. rewrite app_nil_r. apply incl_appr.
-      intros x Hx. apply in_flat_map. exists nst. split; assumption.
+    + apply in_app_or in Hin. destruct Hin as [Hin|Hin].
+      * apply in_map_iff in Hin. destruct Hin as [nst [<- Hn]]. cbn [snd]. apply nerr_decl; [|reflexivity].
+        cbn [decl_in_language]. apply Hfs. rewrite Hall. apply incl_appr.
+        intros x Hx. apply in_flat_map. exists nst. split; assumption.
+      * unfold inline_decls in Hin. apply in_flat_map in Hin. destruct Hin as [f [Hf Hin]].
+        destruct (f_inline f) as [il|] eqn:Eil; [|contradiction].
+        destruct (N.eqb (il_kind il) 2); [contradiction|]. destruct Hin as [<-|[]]. cbn [snd].
+        assert (Hps : forallb prop_accepted (map (fun sf => abs_prop defs (of_sfield sf)) (il_fields il)) = true).
+        { apply forallb_forall. intros p Hp. apply in_map_iff in Hp. destruct Hp as [sf [<- Hsf]].
+          apply (Hinl f il sf); [rewrite Hall; exact Hf|exact Eil|exact Hsf]. }
+        destruct (N.eqb (il_kind il) 1); apply nerr_decl; try reflexivity; exact Hps.
   - destruct Hin as [<-|[]]. apply nerr_decl; reflexivity.
   - cbn [comp_clean] in Hc. destruct (Entity.sv_ann s).
     + destruct Hin as [<-|[]]. cbn [snd decl_state]. apply andb_prop in Hc. destruct Hc as [-> Hv].
@@ -260,7 +292,7 @@ Qed.
 (* a closed expansion with well-formed fields and clean services is accepted: every output file converts
    without an error and links *)
 Theorem entity_accepted : forall pok cs,
-  closed cs = true -> forallb ofield_ok (Entity.fields_of cs) = true -> forallb (comp_clean pok) cs = true ->
+  closed cs = true -> forallb ofield_ok_deep (Entity.fields_of cs) = true -> forallb (comp_clean pok) cs = true ->
   entity_verdict pok cs = VOk.
 Proof.
   intros pok cs Hcl Hok Hclean.
